@@ -31,6 +31,12 @@ def check(model: Model, rep: Report, tier: str):
     with rep.isolated():
         share_rule(rep, model, r2, "C04.D5", "end_time == start_time + duration in every definition (shared C01.R2): the span of D2 is computed from end times, and "
                                              "'everything FOLLOWED_BY the block starts after all of it has ended' reads them", only_rules={"C01.R2"})
+    from .c03 import h5
+    from ..resolve import CallGraph
+    with rep.isolated():
+        cg = CallGraph(model)
+        share_rule(rep, model, lambda m, r: h5(m, r, cg), "C04.D6", "the start of what follows a block is memoised per link: the memo key separates links to different blocks, "
+                   "so a follower never receives the end of another block (= C03.H5)")
 
 
 def front_rule(model: Model, rep: Report):
